@@ -485,8 +485,30 @@ fn honest_key_variant(ctx: &RunCtx, chain: &MvChain, trusted: &ExtendedHeader, t
     let honest = chain.get(target);
     let set = chain.set(target);
     let mut h = honest.clone();
-    let kind = ctx.choose("hk.kind", 5);
+    let kind = ctx.choose("hk.kind", 6);
     let name = match kind {
+        5 => {
+            // a fork signed by ONE validator of the trusted set, listed several times both in
+            // the fork's own validator set and in its commit (the canonical vote bytes do not
+            // cover the validator index, so one signature fits every slot): self-consistent, but
+            // behind it stands only that validator's share of the trusted power
+            let tset = chain.set(trusted.height());
+            let who = ctx.choose("hk.minority_who", tset.keys.len() as u32) as usize;
+            let copies = 2 + ctx.choose("hk.minority_copies", 3) as usize;
+            let dup = KeyedSet { keys: vec![tset.keys[who].clone(); copies], powers: vec![tset.powers[who]; copies] };
+            let forged = build_header(frng, HeaderSpec {
+                chain_id: &honest.header.chain_id,
+                height: target,
+                time: honest.time(),
+                prev: None,
+                set: &dup,
+                next_set: &dup,
+                dah: honest.dah.clone(),
+                app_version: honest.header.version.app,
+                votes: None,
+            });
+            return (forged, "fork_signed_by_one_trusted_validator_repeated");
+        }
         0 => {
             // replay of an older or equal height
             let older = ctx.range("hk.older", 1, trusted.height());
@@ -570,7 +592,10 @@ async fn run_hdr(ctx: &Arc<RunCtx>) {
                 // a non-adjacent header cannot be checked against its parent: only the adjacent
                 // case of a wrong parent hash is promised to fail
                 let v = if name == "wrong_parent_hash" && !adjacent { Label::Either } else { Label::MustReject };
-                (h, name, Label::Either, Some(v))
+                // the repeated-validator fork, non-adjacent: labelled by the distinct trusted
+                // power behind it (computed below)
+                let v = if name == "fork_signed_by_one_trusted_validator_repeated" && !adjacent { None } else { Some(v) };
+                (h, name, Label::Either, v)
             }
         };
         if family != "honest" {
